@@ -80,6 +80,10 @@ func (c *ColArr[T]) Infer(t ColumnType) error {
 	return nil
 }
 
+func (c *ColArr[T]) adoptType(t ColumnType) error {
+	return adoptType(c.Data, t.Elem())
+}
+
 // RowAppend appends i-th row to target and returns it.
 func (c ColArr[T]) RowAppend(i int, target []T) []T {
 	var start int
